@@ -71,13 +71,17 @@ def clang_dump(fname, filt):
     return objs
 
 
+_SELF = open(os.path.abspath(__file__), 'rb').read()       # the translator as it was loaded (not as it is on disk when the hash is taken)
+
+
 def source_hash():
     h = hashlib.sha256()
-    h.update(open(os.path.abspath(__file__), 'rb').read())
-    for f in HASH_FILES:
-        p = os.path.join(REPO, 'src', f)
-        h.update(f.encode())
-        if os.path.exists(p):
+    h.update(_SELF)
+    src = os.path.join(REPO, 'src')
+    for f in sorted(os.listdir(src)):                     # every file of the library: headers reach the translated functions through includes
+        p = os.path.join(src, f)
+        if os.path.isfile(p):
+            h.update(f.encode())
             h.update(open(p, 'rb').read())
     return h.hexdigest()[:20]
 
